@@ -63,3 +63,17 @@ Proof. exact assemble_nodes_phase. Qed.
 Theorem C02_phase_check : forall w st n x st',
   emit_step w st n x = Ok st' -> a_val (r_reloc (e_r st)) = x.
 Proof. exact emit_step_phase. Qed.
+
+(** From the binding to the final label table: a label name defined by exactly one node keeps, in
+    the scope where it was defined, the address the label pass held at that node — the run address
+    at which the node and the next emitted byte are emitted (C02_phase_agreement). *)
+From A816 Require Import Proofs.LabelProofs.
+Theorem C02_label_final_value : forall w r pre name post out,
+  defines_none name pre -> defines_none name post ->
+  assemble_nodes w r (pre ++ NLabel name :: post) = Ok out ->
+  exists r1 a1 l1,
+    label_run w (set_cur_last r (r_cur r) 0) pre (r_reloc r) = Ok (r1, a1, l1) /\
+    forall s1, nth_error (r_scopes r1) (r_cur r1) = Some s1 ->
+      exists s, nth_error (r_scopes (o_final out)) (r_cur r1) = Some s /\
+                dict_get (s_labels s) name = Some (a_val a1).
+Proof. exact label_final_value. Qed.
